@@ -202,5 +202,5 @@ def describe(spec):
 
 
 SUBS = [
-    Sub('roundtrip', strategy(), oracle, quick=480, thorough=12800),
+    Sub('roundtrip', strategy(), oracle, quick=480, thorough=76800),
 ]
